@@ -15,6 +15,7 @@
   The theorems hold for every key type (`S : Scheme` arbitrary).
 -/
 import EnrVerif.Proofs.CodecTheorems
+import EnrVerif.Proofs.Examples
 
 namespace EnrVerif
 
@@ -62,6 +63,123 @@ theorem C02_typing (k v : Bytes) (h : ValueOK k v) :
     simp [kIp, kId, isPortKey, kTcp, kTcp6, kUdp, kUdp6] at h; exact h
   · intro hk; subst hk
     simp [kIp6, kIp, kId, isPortKey, kTcp, kTcp6, kUdp, kUdp6] at h; exact h
+
+/-! ### non-vacuity -/
+
+/-- an accepted input: the 18 bytes of `r0` -/
+example : decode tinyS [209, 132, 1, 2, 3, 13, 1, 130, 105, 100, 130, 118, 52, 116, 131, 1, 2, 3] =
+    .ok (r0, []) := by decide +kernel
+
+/-- `WellFormed` holds of it — through the theorem … -/
+example : WellFormed tinyS r0.encode :=
+  (C02_decode_iff_wellformed tinyS _).1 ⟨r0, encode_decode tinyS r0 r0_valid⟩
+
+/-- … and directly, by exhibiting signature, sequence number and pairs (no decoder involved) -/
+example : WellFormed tinyS r0Bytes :=
+  ⟨[1, 2, 3, 13], 1, content0, by decide, by decide, by decide, r0_contentOK, by decide,
+   pk0, r0_pub, by decide⟩
+
+/-- so the right-to-left direction of C02 yields a record -/
+example : ∃ r, decode tinyS r0Bytes = .ok (r, []) :=
+  (C02_decode_iff_wellformed tinyS r0Bytes).2 r0Bytes_wellFormed
+
+/-- what acceptance implies, on this input -/
+example : Valid tinyS r0 ∧ r0.size ≤ 300 :=
+  have h : decode tinyS r0Bytes = .ok (r0, []) := by decide +kernel
+  ⟨C02_accepted_is_valid tinyS _ r0 _ h, C02_accepted_size tinyS _ r0 _ h⟩
+
+/-! Rejected inputs, each one edit away from `r0Bytes`, with the error value the decoder returns. -/
+
+/-- pairs out of order (`"t"` before `"id"`) -/
+example : decode tinyS [209, 132, 1, 2, 3, 13, 1, 116, 131, 1, 2, 3, 130, 105, 100, 130, 118, 52] =
+    .error (.custom .unsorted) := by decide +kernel
+
+/-- a key twice -/
+example : decode tinyS [215, 132, 1, 2, 3, 13, 1, 130, 105, 100, 130, 118, 52,
+    130, 105, 100, 130, 118, 52, 116, 131, 1, 2, 3] = .error (.custom .unsorted) := by decide +kernel
+
+/-- outer length in the long form although it is below 56 -/
+example : decode tinyS [248, 17, 132, 1, 2, 3, 13, 1, 130, 105, 100, 130, 118, 52, 116, 131, 1, 2, 3] =
+    .error .nonCanonicalSize := by decide +kernel
+
+/-- sequence number `81 01` instead of `01` -/
+example : decode tinyS [210, 132, 1, 2, 3, 13, 129, 1, 130, 105, 100, 130, 118, 52, 116, 131, 1, 2, 3] =
+    .error .nonCanonicalSingleByte := by decide +kernel
+
+/-- sequence number with a leading zero byte (`82 00 01`) -/
+example : decode tinyS [211, 132, 1, 2, 3, 13, 130, 0, 1, 130, 105, 100, 130, 118, 52, 116, 131, 1, 2, 3] =
+    .error .leadingZero := by decide +kernel
+
+/-- sequence number of nine bytes (2^64) -/
+example : decode tinyS [218, 132, 1, 2, 3, 13, 137, 1, 0, 0, 0, 0, 0, 0, 0, 0,
+    130, 105, 100, 130, 118, 52, 116, 131, 1, 2, 3] = .error .overflow := by decide +kernel
+
+/-- a key without a value -/
+example : decode tinyS [210, 132, 1, 2, 3, 13, 1, 130, 105, 100, 130, 118, 52, 116, 131, 1, 2, 3, 120] =
+    .error .inputTooShort := by decide +kernel
+
+/-- `id` = "v5" -/
+example : decode tinyS [209, 132, 1, 2, 3, 13, 1, 130, 105, 100, 130, 118, 53, 116, 131, 1, 2, 3] =
+    .error (.custom .unsupportedId) := by decide +kernel
+
+/-- an `ip` of three bytes -/
+example : decode tinyS [216, 132, 1, 2, 3, 13, 1, 130, 105, 100, 130, 118, 52,
+    130, 105, 112, 131, 10, 0, 0, 116, 131, 1, 2, 3] = .error .unexpectedLength := by decide +kernel
+
+/-- a `udp` port of three bytes (65536) -/
+example : decode tinyS [217, 132, 1, 2, 3, 13, 1, 130, 105, 100, 130, 118, 52, 116, 131, 1, 2, 3,
+    131, 117, 100, 112, 131, 1, 0, 0] = .error .overflow := by decide +kernel
+
+/-- no public-key entry -/
+example : decode tinyS [204, 132, 1, 2, 3, 13, 1, 130, 105, 100, 130, 118, 52] =
+    .error (.custom .unknownSignature) := by decide +kernel
+
+/-- a public key the scheme rejects (nine bytes: `tinyS` keys have at most eight) -/
+example : decode tinyS [215, 132, 1, 2, 3, 13, 1, 130, 105, 100, 130, 118, 52,
+    116, 137, 1, 2, 3, 4, 5, 6, 7, 8, 9] = .error (.custom .invalidPubkey) := by decide +kernel
+
+/-- a signature that does not verify -/
+example : decode tinyS [209, 132, 1, 2, 3, 14, 1, 130, 105, 100, 130, 118, 52, 116, 131, 1, 2, 3] =
+    .error (.custom .invalidSignature) := by decide +kernel
+
+/-- the empty list, a list with a signature only, a string, a truncated record -/
+example : decode tinyS [192] = .error (.custom .payloadEmpty) ∧
+    decode tinyS [197, 132, 1, 2, 3, 13] = .error (.custom .seqMissing) ∧
+    decode tinyS [131, 1, 2, 3] = .error .unexpectedString ∧
+    decode tinyS [209, 132, 1, 2, 3, 13, 1, 130, 105, 100, 130, 118, 52, 116, 131, 1, 2] =
+      .error .inputTooShort := by decide +kernel
+
+/-- a list of 302 + 3 bytes -/
+example : decode tinyS (249 :: 1 :: 46 :: List.replicate 302 0) = .error (.custom .exceedsMaxSize) := by
+  decide +kernel
+
+/-- none of them is `WellFormed`: e.g. the swapped one (left-to-right direction of C02,
+    contrapositive) -/
+example : ¬ WellFormed tinyS r0Swapped := by
+  intro h
+  obtain ⟨r, hr⟩ := (C02_decode_iff_wellformed tinyS r0Swapped).2 h
+  have he : decode tinyS r0Swapped = .error (.custom .unsorted) := by decide +kernel
+  rw [he] at hr
+  cases hr
+
+/-- `C02_rejected_otherwise`: its hypothesis holds of `r0Swapped` (first alternative: an error) … -/
+example : (∃ e, decode tinyS r0Swapped = .error e) ∨
+    ∃ r rest, decode tinyS r0Swapped = .ok (r, rest) ∧ rest ≠ [] :=
+  C02_rejected_otherwise tinyS r0Swapped r0Swapped_not_wellFormed
+
+/-- … and of `r0Bytes ++ [0]` (second alternative: a record, but the input is not exactly one item) -/
+example : ¬ WellFormed tinyS (r0Bytes ++ [0]) ∧
+    decode tinyS (r0Bytes ++ [0]) = .ok (r0, [0]) := by
+  have hd : decode tinyS (r0Bytes ++ [0]) = .ok (r0, [0]) := by decide +kernel
+  refine ⟨fun h => ?_, hd⟩
+  obtain ⟨r, hr⟩ := (C02_decode_iff_wellformed tinyS _).2 h
+  rw [hd] at hr
+  cases hr
+
+/-- `C02_typing` on the pairs of `r1` (`r0` after `set_udp4(30303)`): the port value is `82 76 5f` -/
+example : ∃ p, p < 65536 ∧ ([130, 118, 95] : Bytes) = encUint p :=
+  (C02_typing kUdp [130, 118, 95]
+    ((r1_valid.content).2 kUdp [130, 118, 95] (by decide)).2).2.1 (by decide)
 
 #print axioms C02_decode_iff_wellformed
 #print axioms C02_rejected_otherwise
